@@ -407,6 +407,77 @@ func TestC05(t *testing.T) {
 		}, func(s string) { t.Fatalf("%s", s) })
 		sweepStride, sweepOffset = 1, 0
 	}
+	// enumerated: every pair and triple of the key purposes zlint knows x every key usage of one to three named bits
+	// (of the first five), on a subscriber certificate, linted sixteen times with the lints that read both
+	// extensions - rule tables held in maps must not let iteration order reach the verdict
+	{
+		kuLints := []string{"e_key_usage_and_extended_key_usage_inconsistent"}
+		for _, l := range registryLints(lint.GlobalRegistry()) {
+			if l.Kind == "cert" && (strings.Contains(l.Name, "key_usage") || strings.Contains(l.Name, "_eku_")) && l.Name != kuLints[0] {
+				kuLints = append(kuLints, l.Name)
+			}
+		}
+		hs := homeObjects()[kuLints[0]]
+		if reg, err := lint.GlobalRegistry().Filter(lint.FilterOptions{IncludeNames: kuLints}); err == nil && len(hs) > 0 {
+			o := co.Certs[hs[0]]
+			purposes := [][]int{gen.EKUServerAuth, gen.EKUClientAuth, gen.EKUCodeSign, gen.EKUEmail, gen.EKUTimeStamp, gen.EKUOCSP}
+			var sets [][][]int
+			for a := 0; a < len(purposes); a++ {
+				for b := a + 1; b < len(purposes); b++ {
+					sets = append(sets, [][]int{purposes[a], purposes[b]}, [][]int{purposes[b], purposes[a]})
+					for c := b + 1; c < len(purposes); c++ {
+						sets = append(sets, [][]int{purposes[a], purposes[b], purposes[c]})
+					}
+				}
+			}
+			k := 0
+			for _, set := range sets {
+				for m := 1; m < 32; m++ {
+					nb := 0
+					for x := m; x > 0; x >>= 1 {
+						nb += x & 1
+					}
+					if nb > 3 {
+						continue
+					}
+					k++
+					if !stats.Mine(k) {
+						continue
+					}
+					v, err := gen.ViewCert(o.DER)
+					if err != nil {
+						continue
+					}
+					v.SetEKU(set...)
+					mask := uint16(m) << 11 // bits 0..4: digitalSignature, contentCommitment, keyEncipherment, dataEncipherment, keyAgreement
+					v.SetExt([]int{2, 5, 29, 15}, true, gen.KeyUsageBits(mask))
+					ec := engine.Case{Kind: gen.Cert, DER: v.DER(), Base: o.Name, Filters: []engine.FilterSpec{{IncludeNames: kuLints}}, Ops: []string{fmt.Sprintf("ekus=%v keyUsage=%05b", set, m)}}
+					var first map[string]model.Verdict
+					for r := 0; r < 16; r++ {
+						pc, ok := gen.ParseCert(ec.DER)
+						if !ok {
+							break
+						}
+						vd := engine.Verdicts(zlint.LintCertificateEx(pc, reg))
+						if r == 0 {
+							first = vd
+							continue
+						}
+						for n, x := range first {
+							if vd[n].Status != x.Status {
+								c := c05Case{Case: ec, Reps: 40}
+								if rec.Report("c05", "repeat-status|"+n, fmt.Sprintf("repetition %d: %s, first run: %s (%v)", r, vd[n], x, ec.Ops), c) {
+									t.Fatalf("c05 EKU x KU %v: %s gives %s then %s", ec.Ops, n, x, vd[n])
+								}
+							}
+						}
+					}
+					rec.Eval()
+					rec.Class("eku_ku_enumerated")
+				}
+			}
+		}
+	}
 	// directed: map-iteration-prone shapes (several duplicated extensions; several EV .onion names without descriptor)
 	rapidRun(t, "directed", perShard(stats.Scale(300, 6000)), func(rt *rapid.T) {
 		o := co.Certs[rapid.IntRange(0, len(co.Certs)-1).Draw(rt, "base")]
